@@ -1,6 +1,8 @@
 import NimaVerif.Lemmas.EditTree
 /-! The operations of `cli/manipulations.py` (model: `Model/Edit.lean`) read through `denote`. -/
 namespace Nima
+-- name tokens are compared by spelling in this file (see `NameCmp` in Model/Edit.lean)
+attribute [local instance] NameCmp.spelled
 open Node
 
 theorem setValue_unscoped (p : Text) (v : Node) (d : Doc) (h1 : d.noTarget = none)
@@ -144,7 +146,7 @@ theorem subAt_empty_set (n : Nat) (ml r : Bool) (o : List Node) (q : List Text) 
     (h : subAt (.set n [] o ml r) q = some par) : q = [] ∧ par = .set n [] o ml r := by
   cases q with
   | nil => simp at h; exact ⟨rfl, h.symm⟩
-  | cons k ks => simp [subAt, stepInto, setValues, findBinding] at h
+  | cons k ks => simp [subAt, stepInto, setValues, findBinding_spelled] at h
 
 /-- Lemma N: `_resolve_npath_parent(create_missing=True)` from the set at path `p`, followed by the last
     step, refines `specSetK` below `p`. -/
@@ -227,7 +229,7 @@ theorem nested_set_refines (ts : Node) (wl : Bool) (final : Text) (v : Node) (ks
         intro par hpar
         rw [subAt_append, hp2] at hpar
         obtain ⟨_, rfl⟩ := subAt_empty_set _ _ _ _ _ _ hpar
-        exact ⟨fun b hb => by simp [setValues, findBinding] at hb, by simp [setValues, inheritMentions]⟩
+        exact ⟨fun b hb => by simp [setValues, findBinding_spelled] at hb, by simp [setValues, inheritMentions]⟩
       obtain ⟨hfr, Y, hY, hd⟩ := ih d2 _ (p ++ [k]) parent d1 d' hinv2 hp2 rfl
         (fun k' hk' => hplain k' (by simp [hk'])) hfin2 hw hfs
       refine ⟨((Frame.next d _).trans hfr2).trans hfr, Kids.upsert k (.node Y) (denoteL vs), ?_, ?_⟩
@@ -534,7 +536,7 @@ theorem setDelItem_none (s : Node) (key : Text) (d : Doc) (h1 : findBinding s.se
 theorem findNamedBinding_some (vs : List Node) (k : Text) (ne : Bool) (b : Node)
     (h : findNamedBinding vs k (some ne) = some b) :
     ∃ i val bf af, b = .bind i k ne val bf af ∧ b ∈ vs := by
-  unfold findNamedBinding at h
+  simp only [findNamedBinding_spelled] at h
   have hm := List.mem_of_find?_eq_some h
   have hp := List.find?_some h
   cases b <;> simp [isBind, bindName?, bindNested] at hp
@@ -544,7 +546,7 @@ theorem findNamedBinding_some (vs : List Node) (k : Text) (ne : Bool) (b : Node)
 
 theorem findAttrpathRoot_some (vs : List Node) (k : Text) (b : Node) (h : findAttrpathRoot vs k = some b) :
     ∃ i val bf af, b = .bind i k true val bf af ∧ b ∈ vs := by
-  unfold findAttrpathRoot at h
+  simp only [findAttrpathRoot_spelled] at h
   have hm := List.mem_of_find?_eq_some h
   have hp := List.find?_some h
   cases b <;> simp [isBind, bindName?, bindNested] at hp
@@ -773,11 +775,11 @@ theorem findNamedBinding_of_findBinding (vs : List Node) (k : Text) (b : Node)
   cases ne with
   | true =>
     left
-    simp only [findNamedBinding, List.find?_isSome]
+    simp only [findNamedBinding_spelled, List.find?_isSome]
     exact ⟨_, hm, by simp [isBind, bindName?, bindNested]⟩
   | false =>
     right
-    simp only [findNamedBinding, List.find?_isSome]
+    simp only [findNamedBinding_spelled, List.find?_isSome]
     exact ⟨_, hm, by simp [isBind, bindName?, bindNested]⟩
 
 /-- the family sets: only bindings inside, recursively -/
@@ -1621,13 +1623,13 @@ theorem resolveParentWalk_empty_ok (ks : List Text) : ∀ (n : Nat) (ml : Bool) 
           | nil => exact ⟨_, rfl⟩
           | cons a b =>
             cases b with
-            | nil => simp [setGetItem.walk, setValues, findBinding]
-            | cons a2 b2 => simp [setGetItem.walk, setValues, findBinding]
+            | nil => simp [setGetItem.walk, setValues, findBinding_spelled]
+            | cons a2 b2 => simp [setGetItem.walk, setValues, findBinding_spelled]
     obtain ⟨e, hg⟩ := hg
     simp only [resolveParentWalk, hg, Bool.not_true, Bool.false_eq_true, if_false, setSid_set, EditM.bind_apply,
       fresh_apply, setMultiline]
     obtain ⟨d2, e2, _⟩ := setSetItem_fresh (.set n [] [] ml false) k (.set d.next [] [] ml false) n
-      { d with next := d.next + 1 } (by simp [setValues, findBinding]) rfl
+      { d with next := d.next + 1 } (by simp [setValues, findBinding_spelled]) rfl
     simp only [e2]
     exact ih _ _ _
 
